@@ -23,10 +23,12 @@ CONSTANTS Mode,        \* "blocker": add_filter/optimize available; "engine": se
           Allocs,      \* "any": every placement of re-allocated rules; "first": lowest free addresses
           InitSet,     \* "full" | "notagblock" (no tagged blocking rule in the list)
           Ops,         \* "all" | "tags" (only tag assignment, discard and query: deeper histories)
+                       \* | "res" (resource loading, save/load, discard and query; InitSet "res")
           Export
 
-VARIABLES rules, tags, blob, hist, heap, cache
-vars == <<rules, tags, blob, hist, heap, cache>>
+VARIABLES rules, tags, blob, hist, heap, cache,
+          store        \* resources handed to the engine since the last use_resources, in order (pool indices)
+vars == <<rules, tags, blob, hist, heap, cache, store>>
 
 B(s) == Chars(s)
 W(s) == [R0 EXCEPT !.body = B(s)]
@@ -45,10 +47,28 @@ Pool == <<
   W("/ab-"), W("/ab_"),                                     \* 10, 11 fusable plain rules sharing a bucket
   W("/ab."),                                                \* 12 addable, same bucket and mask as 10, 11
   W("/aaa"),                                                \* 13 untagged block (for the tagged exception)
-  [W("x.com^") EXCEPT !.left = "dpipe", !.mkind = "removeparam", !.mval = "q", !.important = TRUE]   \* 14 addable: category precedence
+  [W("x.com^") EXCEPT !.left = "dpipe", !.mkind = "removeparam", !.mval = "q", !.important = TRUE],  \* 14 addable: category precedence
+  \* 15-19: redirect rules naming resources / aliases of ResPool (InitSet "res")
+  [W("x.com/aaa") EXCEPT !.left = "dpipe", !.mkind = "redirect", !.mval = "al1"],
+  [W("/ccc") EXCEPT !.mkind = "redirect-rule", !.mval = "r2"],
+  [W("/ab/a") EXCEPT !.mkind = "redirect", !.mval = "p1"],
+  [W("/eee") EXCEPT !.mkind = "redirect", !.mval = "r1", !.prio = "1"],
+  [W("/eee") EXCEPT !.mkind = "redirect", !.mval = "al1"]
 >>
+\* resources (C06: answers are a function of the LOADED resources): r1 has the alias al1, a later resource
+\* NAMED al1 collides with it - whichever is added first wins; p1 needs a permission and is never served
+ResPool == <<
+  [name |-> "r1", aliases |-> {"al1"}, redirectable |-> TRUE, perm |-> 0, kind |-> "text/plain", content |-> "r1"],
+  [name |-> "r2", aliases |-> {}, redirectable |-> TRUE, perm |-> 0, kind |-> "application/javascript", content |-> "r2"],
+  [name |-> "al1", aliases |-> {}, redirectable |-> TRUE, perm |-> 0, kind |-> "text/plain", content |-> "al1"],
+  [name |-> "p1", aliases |-> {}, redirectable |-> TRUE, perm |-> 1, kind |-> "text/plain", content |-> "p1"]
+>>
+ResSeq(st) == [i \in DOMAIN st |-> ResPool[st[i]]]
+StoreNow == EffectiveStore(ResSeq(store))
+UseChoices == {<<>>, <<1, 2>>, <<3, 1>>, <<1, 3, 4>>, <<2>>}
 PoolX == Pool
-InitRules == IF InitSet = "full" THEN <<1, 2, 3, 4, 5, 6, 7, 8, 10, 11>> ELSE <<3, 5, 7, 13>>
+InitRules == IF InitSet = "full" THEN <<1, 2, 3, 4, 5, 6, 7, 8, 10, 11>>
+             ELSE IF InitSet = "res" THEN <<15, 16, 17, 18, 19, 13, 3>> ELSE <<3, 5, 7, 13>>
 Addable == IF Mode = "blocker" THEN {9, 12, 14} ELSE {}
 
 MkReq(path, alias) ==
@@ -82,9 +102,9 @@ ImplHits(q) ==
      LET i == rules[k] r == PoolX[i] p == PoolX[UsedPattern(i)] IN
      ImplHitM([r EXCEPT !.body = p.body, !.left = p.left, !.right = p.right], Reqs[q])]
 
-ImplVerdict(q) == VerdictsFor(RuleSeq(rules), ImplHits(q), tags, {}, Reqs[q])
+ImplVerdict(q) == VerdictsFor(RuleSeq(rules), ImplHits(q), tags, StoreNow, Reqs[q])
 ImplCspOut(q) == CspFor(RuleSeq(rules), ImplHits(q), tags, Reqs[q])
-IdealV(q) == IdealVerdicts(RuleSeq(rules), tags, {}, Reqs[q])
+IdealV(q) == IdealVerdicts(RuleSeq(rules), tags, StoreNow, Reqs[q])
 IdealC(q) == IdealCsp(RuleSeq(rules), tags, Reqs[q])
 
 \* re-tagging: the new tagged list is allocated while the old one is still live
@@ -111,7 +131,7 @@ SetTags(name, S, newT) ==
   /\ Len(hist) < Depth - 1
   /\ tags' = newT /\ UNCHANGED <<rules, blob>>
   /\ Retag(rules, newT)
-  /\ Op([op |-> name, tags |-> S, now |-> newT])
+  /\ UNCHANGED store /\ Op([op |-> name, tags |-> S, now |-> newT])
 
 UseTags(S) == SetTags("use", S, S)
 EnableTags(S) == SetTags("enable", S, tags \cup S)
@@ -121,24 +141,24 @@ AddFilter(i) ==
   /\ Mode = "blocker" /\ Len(hist) < Depth - 1 /\ i \notin SeqToSet(rules)
   /\ rules' = Append(rules, i) /\ UNCHANGED <<tags, blob>>
   /\ IF PoolX[i].tag # "" THEN Retag(Append(rules, i), tags) ELSE UNCHANGED <<heap, cache>>
-  /\ Op([op |-> "add", rule |-> RuleText(PoolX[i]), now |-> tags])
+  /\ UNCHANGED store /\ Op([op |-> "add", rule |-> RuleText(PoolX[i]), now |-> tags])
 
 Optimize ==
   /\ Mode = "blocker" /\ Len(hist) < Depth - 1
   /\ UNCHANGED <<rules, tags, blob>>
   /\ Retag(rules, tags)                 \* optimisation moves every rule to a new allocation
-  /\ Op([op |-> "optimize", now |-> tags])
+  /\ UNCHANGED store /\ Op([op |-> "optimize", now |-> tags])
 
 \* discard policy 1ns/0 + time passing, or discard_regex on every entry: all compiled regexes go
 Discard ==
   /\ Len(hist) < Depth - 1
   /\ cache' = [a \in Addr |-> NONE] /\ UNCHANGED <<rules, tags, blob, heap>>
-  /\ Op([op |-> "discard", now |-> tags])
+  /\ UNCHANGED store /\ Op([op |-> "discard", now |-> tags])
 
 Serialize ==
   /\ Mode = "engine" /\ Len(hist) < Depth - 1
   /\ blob' = rules /\ UNCHANGED <<rules, tags, heap, cache>>
-  /\ Op([op |-> "serialize", now |-> tags])
+  /\ UNCHANGED store /\ Op([op |-> "serialize", now |-> tags])
 
 \* loading replaces the rules, keeps the caller's enabled tags, starts with an empty cache
 Deserialize ==
@@ -146,7 +166,7 @@ Deserialize ==
   /\ rules' = blob /\ UNCHANGED <<tags, blob>>
   /\ Place(blob, tags)
   /\ cache' = [a \in Addr |-> NONE]      \* a fresh Blocker comes with a fresh regex manager
-  /\ Op([op |-> "deserialize", now |-> tags])
+  /\ UNCHANGED store /\ Op([op |-> "deserialize", now |-> tags])
 
 \* a query compiles (and caches) the regex of every regex rule of the tagged list it consults
 Query ==
@@ -156,13 +176,27 @@ Query ==
        ELSE LET at == {i \in DOMAIN heap : heap[i] = a /\ IsRegexRule(i)} IN
             IF at = {} THEN NONE ELSE CHOOSE i \in at : TRUE]
   /\ UNCHANGED <<rules, tags, blob, heap>>
-  /\ Op([op |-> "q", now |-> tags,
+  /\ UNCHANGED store /\ Op([op |-> "q", now |-> tags,
          v |-> [q \in DOMAIN Reqs |-> IdealV(q)], csp |-> [q \in DOMAIN Reqs |-> IdealC(q)]])
 
-Init == /\ rules = InitRules /\ tags = {} /\ blob = <<>> /\ hist = <<>>
+\* use_resources replaces the store; add_resource appends (and reports whether the resource was accepted).
+\* Neither touches rules, tags or the regex cache.
+UseResources(sq) ==
+  /\ Ops = "res" /\ Len(hist) < Depth - 1
+  /\ store' = sq /\ UNCHANGED <<rules, tags, blob, heap, cache>>
+  /\ Op([op |-> "useres", res |-> [i \in DOMAIN sq |-> ResPool[sq[i]].name], now |-> tags])
+AddResource(i) ==
+  /\ Ops = "res" /\ Len(hist) < Depth - 1 /\ Len(store) < 4
+  /\ store' = Append(store, i) /\ UNCHANGED <<rules, tags, blob, heap, cache>>
+  /\ Op([op |-> "addres", res |-> ResPool[i].name, now |-> tags,
+         ok |-> (ResPool[i] \in EffectiveStore(ResSeq(Append(store, i))) /\ ResPool[i] \notin StoreNow)])
+
+Init == /\ store = <<>> /\ rules = InitRules /\ tags = {} /\ blob = <<>> /\ hist = <<>>
         /\ heap = [i \in {} |-> 0] /\ cache = [a \in Addr |-> NONE]
 
-Next == \/ \E S \in TagSets : UseTags(S)
+Next == \/ (Ops # "res" /\ \E S \in TagSets : UseTags(S))
+        \/ (\E sq \in UseChoices : UseResources(sq)) \/ (\E i \in DOMAIN ResPool : AddResource(i))
+        \/ (Ops = "res" /\ (Serialize \/ Deserialize))
         \/ (Ops = "all" /\ \E t \in {"t1", "t2"} : EnableTags({t}) \/ DisableTags({t}))
         \/ (Ops = "all" /\ \E i \in Addable : AddFilter(i))
         \/ (Ops = "all" /\ (Optimize \/ Serialize \/ Deserialize))
@@ -178,7 +212,7 @@ TagAlgebra ==
   [][ /\ (Len(hist') > Len(hist) /\ hist'[Len(hist')].op = "use") => tags' = hist'[Len(hist')].tags
       /\ (Len(hist') > Len(hist) /\ hist'[Len(hist')].op = "enable") => tags' = tags \cup hist'[Len(hist')].tags
       /\ (Len(hist') > Len(hist) /\ hist'[Len(hist')].op = "disable") => tags' = tags \ hist'[Len(hist')].tags
-      /\ (Len(hist') > Len(hist) /\ hist'[Len(hist')].op \in {"deserialize", "serialize", "discard", "optimize", "add", "q"}) => tags' = tags
+      /\ (Len(hist') > Len(hist) /\ hist'[Len(hist')].op \in {"deserialize", "serialize", "discard", "optimize", "add", "q", "useres", "addres"}) => tags' = tags
     ]_vars
 
 \* M2 export: complete histories (the last operation is a query)
@@ -192,5 +226,5 @@ Bounded == Len(hist) <= Depth
 
 ASSUME PrintT(ToJson([k |-> "universe",
          reqs |-> [q \in DOMAIN Reqs |-> [url |-> Str(Reqs[q].url), alias |-> Reqs[q].alias, src |-> "https://y.com/"]],
-         res |-> <<>>]))
+         res |-> IF InitSet = "res" THEN ResPool ELSE <<>>]))
 =============================================================================
